@@ -2,7 +2,7 @@
 
 use crate::async_vfs::{AsyncFileSystem, AsyncVfsPath, SeekAndRead};
 use crate::error::VfsErrorKind;
-use crate::{VfsMetadata, VfsResult};
+use crate::{VfsFileType, VfsMetadata, VfsResult};
 
 use async_std::io::Write;
 use async_trait::async_trait;
@@ -124,6 +124,14 @@ impl AsyncFileSystem for AsyncOverlayFS {
 
     async fn create_dir(&self, path: &str) -> VfsResult<()> {
         self.ensure_has_parent(path).await?;
+        if self.exists(path).await? {
+            // the entry may exist in a lower layer only
+            return Err(match self.metadata(path).await?.file_type {
+                VfsFileType::File => VfsErrorKind::FileExists,
+                VfsFileType::Directory => VfsErrorKind::DirectoryExists,
+            }
+            .into());
+        }
         self.write_path(path)?.create_dir().await?;
         let whiteout_path = self.whiteout_path(path)?;
         if whiteout_path.exists().await? {
